@@ -4,6 +4,7 @@ import (
 	"fmt"
 	"go/types"
 	"hash/crc32"
+	"hash/fnv"
 	"math"
 	"path"
 	"regexp"
@@ -188,10 +189,8 @@ func (ex *Exec) intrinsic(fn *ssa.Function, args []Value) (Value, bool) {
 				panic(pathAbort{why: "crc32.Update on a checksum of unknown provenance", incomplete: true})
 			}
 		}
-		if base.zeros > 0 {
-			panic(pathAbort{why: "crc32.Update after a lazy buffer", incomplete: true})
-		}
-		m := crcMessage{msg: append(append([]*Term{}, base.msg...), add.msg...), zeros: add.zeros}
+		// implicit zeros of lazy buffers are only counted (see crcOf: such digests are distinct per total length)
+		m := crcMessage{msg: append(append([]*Term{}, base.msg...), add.msg...), zeros: base.zeros + add.zeros}
 		return ex.crcOf(m), true
 	case "fmt.Errorf", "github.com/pkg/errors.Errorf":
 		return ex.newErr("fmt.Errorf"), true
@@ -486,9 +485,6 @@ func (ex *Exec) crcOf(m crcMessage) *Term {
 	if n == 0 {
 		return p.BV(32, 0)
 	}
-	if n > 4096 && m.zeros == 0 {
-		panic(pathAbort{why: "crc over a very long message", incomplete: true})
-	}
 	allc := m.zeros == 0
 	raw := make([]byte, len(m.msg))
 	for i, t := range m.msg {
@@ -499,33 +495,30 @@ func (ex *Exec) crcOf(m crcMessage) *Term {
 		raw[i] = byte(t.c)
 	}
 	var val *Term
-	var arg *Term
-	if m.zeros > 0 {
-		// distinct function per (total length, prefix length): can never collide with a stored checksum
-		// of a different length (instance axioms below treat different n as different messages)
-		if len(m.msg) == 0 {
-			val = p.UF(fmt.Sprintf("crcz_%d", n), 32, p.BV(1, 0))
-		} else {
-			val = p.UF(fmt.Sprintf("crcz_%d_%d", n, len(m.msg)), 32, p.BigConcat(m.msg))
+	switch {
+	case allc:
+		val = p.BV(32, uint64(crc32.ChecksumIEEE(raw)))
+	case m.zeros > 0 || len(m.msg) > 256:
+		// long / partly lazy messages: one digest constant per distinct (length, materialised bytes)
+		h := fnv.New64a()
+		for _, t := range m.msg {
+			fmt.Fprintf(h, "%d,", t.id)
 		}
-	} else {
-		arg = p.BigConcat(m.msg)
-		if allc {
-			val = p.BV(32, uint64(crc32.ChecksumIEEE(raw)))
-		} else {
-			val = p.UF(fmt.Sprintf("crc_%d", n), 32, arg)
-		}
+		val = p.Var(fmt.Sprintf("crcL_%d_%d_%x", n, len(m.msg), h.Sum64()), 32)
+	default:
+		val = p.UF(fmt.Sprintf("crc_%d", n), 32, p.BigConcat(m.msg))
 	}
 	if _, seen := ex.crcMsg[val]; !seen {
 		ex.crcMsg[val] = m
-		// instance axioms against every earlier application on this path
+		// instance axioms against every earlier application on this path:
+		// equal digests imply equal length and equal bytes
 		for _, o := range ex.crcApps {
 			if o.t == val {
 				continue
 			}
 			var ax *Term
-			if o.n == n && o.arg != nil && arg != nil {
-				ax = p.Implies(p.Bin("=", o.t, val), p.Bin("=", o.arg, arg))
+			if o.n == n && o.m.zeros == m.zeros && len(o.m.msg) == len(m.msg) {
+				ax = p.Implies(p.Bin("=", o.t, val), ex.termsEq(o.m.msg, m.msg))
 			} else {
 				ax = p.Not(p.Bin("=", o.t, val))
 			}
@@ -535,7 +528,7 @@ func (ex *Exec) crcOf(m crcMessage) *Term {
 			ex.emitAssert(ax)
 			ex.modelValid = false
 		}
-		ex.crcApps = append(ex.crcApps, crcApp{t: val, arg: arg, n: n})
+		ex.crcApps = append(ex.crcApps, crcApp{t: val, m: m, n: n})
 	}
 	return val
 }
